@@ -5,6 +5,7 @@ import (
 	"go/ast"
 	"go/token"
 	"go/types"
+	"os"
 	"strings"
 
 	"asverif/internal/gf"
@@ -29,6 +30,7 @@ func runC01(c *Ctx) {
 	if r := c.ReconcileRoles(); r != nil {
 		c.boundIsHelperResult(r, "C01.2-bound")
 		c.storeClassesAs(r, "C01.2")
+		c.everyVacancyIsFilled(r, "C01.2-every-vacancy-is-filled")
 	}
 }
 
@@ -368,10 +370,13 @@ func (c *Ctx) boundComputation() {
 		"every slot with !(0 <= s < bound) is deleted from the effective set before the next iteration", "a slot outside [0, bound) can stay in the effective slot set")
 	// and a slot inside the range is never deleted
 	inside := c.Want(fn, walk.Body.Pos(), "0 <= $1 && $1 < $2", slot, boundID)
-	aI := fn.From(start, an.StateBefore(start).Assume(inside))
+	aI := fn.FromCut(start, an.StateBefore(start).Assume(inside), head) // this iteration only
 	kept := true
 	for _, d := range dels {
 		// reachable with the in-range facts still in force (before the increment changes the bound)
+		if os.Getenv("ASV_DEBUG") != "" {
+			fmt.Printf("C01 kept: del@%s state=%s\n", c.P.Pos(d.Pos()), clip(aI.StateAtExpr(d.(*ast.CallExpr)).String(), 600))
+		}
 		if st := aI.StateAtExpr(d.(*ast.CallExpr)); st.Reachable() {
 			if ok, _ := st.Implies(inside); ok {
 				kept = false
